@@ -29,8 +29,8 @@ PROFILES = {
     "C09": dict(world={"seg": True, "feats": "iou"}, w={"paint": 7, "add_edge": 5, "enable": 0.6, "disable": 0.4}, steps=(8, 40), iou_toggle=True),
     "C10": dict(world={}, w={"enable": 4, "disable": 3, "update_attrs": 3, "query": 0.3}, steps=(10, 50), toggle_ids=True),
     "C11": dict(world={}, w={"add_edge": 6, "add_node": 5, "paint": 5, "swap": 2, "update_attrs": 2, "enable": 0.05, "disable": 0.02}, steps=(10, 60), f1=(0.4,), trap=True),
-    "C14": dict(world={}, w={"reimport": 2.5, "restart": 0.8, "enable": 0.1, "disable": 0.0}, steps=(4, 25), io=True),
-    "C15": dict(world={}, w={"export": 3, "enable": 0.1, "disable": 0.0}, steps=(4, 25), io=True, subset=1.0),
+    "C14": dict(world={}, w={"reimport": 2.5, "restart": 0.8, "enable": 0.1, "disable": 0.0}, steps=(4, 25), io=True, explicit_tracks=True),
+    "C15": dict(world={}, w={"export": 3, "enable": 0.1, "disable": 0.0}, steps=(4, 25), io=True, subset=1.0, explicit_tracks=True),
     "C16": dict(world={}, w={"query": 3, "export": 2, "save": 1, "enable": 0.1, "disable": 0.0}, steps=(4, 30), io=True),
     "C20": dict(world={}, w={"primitive": 1, "query": 0.5, "enable": 0.2, "disable": 0.1}, steps=(10, 60), f1=(0.1, 0.4), subs=True),
 }
@@ -51,6 +51,7 @@ def swarm(rng: random.Random, prop: str, tier: str) -> dict:
     if tier == "thorough":
         hi = int(hi * 2)
     cfg = {
+        "tier": tier,
         "weights": w,
         "steps": rng.randint(lo, hi),
         "f1": rng.choice(p.get("f1", (0.0, 0.1, 0.1, 0.4))),
@@ -76,7 +77,7 @@ def _sel(rng, classes=None):
 def _track(rng, cfg):
     r = rng.random()
     if cfg["flags"].get("explicit_tracks") and r < 0.35:
-        return ["explicit", rng.choice([1, 2, 3, 5, 8, 13, 21, 40, 99])]
+        return ["explicit", rng.choice([1, 2, 3, 5, 8, 13, 21, 40, 99, 256, 300, 512, 70000])]
     if r < 0.45:
         return ["fresh", 0]
     if r < 0.9:
@@ -187,6 +188,8 @@ def gen_op(rng: random.Random, cfg: dict, kind: str | None = None) -> dict:
             fmts = ["internal"]
         if kind == "restart":
             fmts = ["internal", "internal", "geff2", "geff3", "csv"]
+        if kind == "reimport" and cfg.get("tier") == "thorough":
+            fmts = fmts + ["csv_names"]
         op.update(fmt=rng.choice(fmts))
         if kind == "export" and rng.random() < cfg.get("subset", 0.5):
             n = rng.randint(1, 3)
